@@ -20,15 +20,42 @@ Theorem operands_are_restricted_to_the_common_defined_region :
 Proof. exact cov_operands_spec. Qed.
 Print Assumptions operands_are_restricted_to_the_common_defined_region.
 
+(* The code (repaired, 0a511ae) computes the mean of the CENTRED product (f' - mean f')(g' - mean g') over the window, which does
+   not cancel when the means are large relative to the spread. Over every finite window that is the property's formula:
+   mean(f' g') - mean(f') mean(g'), f' and g' being f and g restricted to the region on which both are defined, every mean
+   taken over the window. (Proofs/CovCentredFacts.v: the four clipped tables as Riemann sums over a common refinement.) *)
+Require Import SC.Proofs.CovCentredFacts.
+
 Theorem cov_is_mean_of_product_minus_product_of_means :
-  forall (f' g' : stairsQ) lo hi,
-    cov_masked f' g' lo hi =
-    lift_res (binop_api (BArith OMul) (OpS f') (OpS g')) (fun fg =>
-    lift_res (clipped_mean fg lo hi) (fun mfg =>
-    lift_res (clipped_mean f' lo hi) (fun mf =>
-    lift_res (clipped_mean g' lo hi) (fun mg => Ok (vsub mfg (vmul mf mg)))))).
+  forall (f g : stairsQ) (a b : Qc) lc (v : V), wf f -> wf g ->
+    cov f g (Some a) (Some b) 0 lc = Ok v ->
+    exists f' g' cf cg cp,
+      cov_operands f g (Some a) (Some b) 0 lc = Ok (f', g', Some b) /\
+      clip f' (Some a) (Some b) = Ok cf /\ clip g' (Some a) (Some b) = Ok cg /\
+      clip (apply_binop (BArith OMul) f' g') (Some a) (Some b) = Ok cp /\
+      v = vsub (snd (integral_and_mean cp)) (vmul (snd (integral_and_mean cf)) (snd (integral_and_mean cg))).
 Proof. exact cov_formula. Qed.
 Print Assumptions cov_is_mean_of_product_minus_product_of_means.
+
+(* ... and, where the sides of the restricted operands agree, the expression written with the public operators evaluates to
+   the same value *)
+Theorem the_centred_form_is_the_formula :
+  forall (f' g' : stairsQ) (a b : Qc) (v : V), wf f' -> wf g' ->
+    (forall x, lim LimRight f' x = None <-> lim LimRight g' x = None) -> closed_ok f' g' = true ->
+    cov_masked f' g' (Some a) (Some b) = Ok v -> cov_masked_spec f' g' (Some a) (Some b) = Ok v.
+Proof. exact cov_centred_eq_spec. Qed.
+Print Assumptions the_centred_form_is_the_formula.
+
+(* cov rejects operands with steps and opposite sides before anything is computed, as corr does *)
+Theorem cov_of_opposite_sides_is_rejected :
+  forall (f g : stairsQ) lo hi lc,
+    has_steps f = true -> has_steps g = true -> side_eqb (closed f) (closed g) = false ->
+    cov f g lo hi 0 lc = Err EClosedMismatch.
+Proof.
+  intros f g lo hi lc Hf Hg Hc. unfold cov. change (Qceqb 0 0) with true. cbv iota.
+  unfold closed_ok. rewrite Hf, Hg, Hc. reflexivity.
+Qed.
+Print Assumptions cov_of_opposite_sides_is_rejected.
 
 Theorem a_lag_is_a_shift_of_g_with_the_window_rule :
   forall (f g : stairsQ) lo hi lag lc, Qceqb lag 0 = false ->
@@ -59,7 +86,7 @@ Print Assumptions corr_of_opposite_sides_is_rejected.
 (* cov(f, f) over a finite window is var(f) over that window (whenever both are computed: var needs a finite piece on
    which f is defined). Rests on: the integral of a step table is a Riemann sum over any refinement of its step points
    (Proofs/RefineFacts.v), so length-weighted sums depend only on the represented function. *)
-Require Import SC.Proofs.RefineFacts SC.Proofs.CovSelfFacts.
+Require Import SC.Proofs.RefineFacts SC.Proofs.CovSelfFacts SC.Proofs.CovCentredFacts.
 
 Theorem weighted_sums_depend_only_on_the_represented_function :
   forall (g1 g2 : Qc -> Qc) (l1 l2 : list (Qc * V)),
@@ -77,7 +104,7 @@ Print Assumptions cov_of_f_with_itself_is_var.
 
 (* corr lies in [-1, 1]: the model returns the signed square sign(cov) cov^2 / (var_f var_g), which lies in [-1, 1] exactly
    when cov / (std_f std_g) does. Cauchy-Schwarz over the common refinement of the three clipped tables. *)
-Require Import SC.Proofs.CorrBoundFacts.
+Require Import SC.Proofs.CorrBoundFacts SC.Proofs.CovCentredFacts.
 
 Theorem corr_lies_between_minus_one_and_one :
   forall (f g : stairsQ) (a b : Qc) lc (r : Qc), wf f -> wf g ->
